@@ -34,6 +34,49 @@ def background_flag_test(ctx, rule):
         ctx.inst(rule, 'is_background', ok, 'is_background = %s; must test flag bit 0x0008 of self.flags' % show(t), ib.span, key=ib.name + '|%s' % rule)
 
 
+def validate_keeps_pixels(ctx, rule):
+    """RawPixels::validate hands the decoded pixels on as they are: Pixels::Rgba / Grayscale / Indexed{data} carry the very vector of
+    the matching RawPixels variant (seed C17-r set every alpha of an RGBA cel on a BACKGROUND layer to 255 "because the background is
+    opaque"); whatever the layer flags, the palette or the format say, they do not rewrite pixel data"""
+    vb = ctx.anchor(PX + 'RawPixels::validate')
+    if vb is None:
+        return
+    want = {'Rgba': 'Rgba', 'Grayscale': 'Grayscale', 'Indexed': 'Indexed'}
+    n = 0
+    for bb, st, t in q.stmt_aggs(vb, PX + 'Pixels'):
+        v = t[2]
+        f = dict(t[3])
+        data = f.get('data') if v == 'Indexed' else f.get('0')
+        ok = data is not None and strip_casts(data) == ('field', ('variant', ('param', 1, 'self'), want.get(v, '?')), '0')
+        n += 1
+        ctx.inst(rule, 'RawPixels::validate#' + str(v), ok, 'Pixels::%s carries %s; must be the pixel vector of RawPixels::%s itself, unmodified'
+                 % (v, show(data)[:100] if data else '?', want.get(v)), st['span'], key=vb.name + '|%s|keeps|%s' % (rule, v))
+    ctx.floor('Pixels aggregates in RawPixels::validate', n, 3)
+    # .. and no loop or mutation over the pixel data in validate
+    muts = sorted({q.callee_name(c) for c in q.calls(vb) if q.callee_name(c).split('::')[-1] in
+                   ('iter_mut', 'index_mut', 'for_each', 'fill', 'map', 'into_iter', 'collect', 'retain', 'push', 'truncate', 'resize')})
+    ctx.inst(rule, 'RawPixels::validate#no-rewrite', not muts and not vb.cfg.loops, 'validate %s' % (
+        'does not iterate over or rebuild the pixel data' if not muts and not vb.cfg.loops else 'rewrites pixel data (%s, loops: %d)' % (muts, len(vb.cfg.loops))),
+        vb.span, key=vb.name + '|%s|no-rewrite' % rule)
+
+
+def layer_opacity_as_stored(ctx, rule):
+    """the layer opacity the blend uses is the byte the layer chunk stores, for every layer (seeds C02-r / C06-r returned or stored 255
+    for layers carrying the BACKGROUND flag): layout and store rows of the LAYER chunk, and the getter returns the stored field"""
+    import spec as _SP
+    spec_ = _SP.load_spec()
+    bnd_, _ = layout.check_layout(ctx, spec_, 'asefile::layer::parse_chunk', 'LAYER', rule=rule)
+    layout.check_stores(ctx, spec_, 'asefile::layer::parse_chunk', 'LAYER', bnd_, rule=rule)
+    ob = ctx.anchor('asefile::layer::Layer::opacity')
+    if ob is not None:
+        t = expand(res(ob).ret(), ctx.fx, 2)
+        base, names = field_path(strip_casts(t))
+        ok = names[-1:] == ['opacity'] and len(alts(t)) == 1 and not ob.cfg.loops and \
+            not [sw for sw in q.switches_on(ob, lambda d: True)]
+        ctx.inst(rule, 'Layer::opacity', ok, 'Layer::opacity() = %s; must be the stored opacity field, unconditionally' % show(t)[:100], ob.span,
+                 key=ob.name + '|%s|getter' % rule)
+
+
 def link_resolution(ctx, rule):
     """a linked cel is drawn by one recursive write_cel on framedata.cel(CelId{linked frame, own layer}): offset, opacity and content
     all come from the target (seeds C06-?, C02-o, C17-o drew the target's pixels with the linking chunk's own header)"""
@@ -398,6 +441,8 @@ def run(ctx):
             ctx.inst('B', 'validate(pixel_format)', ok, 'ParseInfo::validate receives %s' % show(at[1])[:80], c.span, key=ra.name + '|B|validate-pf')
 
     link_resolution(ctx, 'N')
+    validate_keeps_pixels(ctx, 'V')
+    layer_opacity_as_stored(ctx, 'K5')
     if rv is not None:
         for c in q.calls(rv):
             if c.callee in ('std::ops::Fn::call',):
@@ -493,6 +538,7 @@ def run(ctx):
     _c11d.precedence(ctx, rule='V')          # .. and which chunk's palette that is: the new chunk always, an old one only before it (seed C06-p)
     _c11d.decoders(_Rv.View(ctx, {'L1': 'L1/L2', 'P1': 'V', 'P2': 'V', 'P3': 'V'}))     # indexed pixels become the colour the palette chunks give that index (seed C06-m)
     render.layer_image_unconditional(ctx, rule='N')
+    render.drawing_conditions(ctx, 'N')        # no fast path / skip decides whether (or how) a cel's pixels reach the image (seed C06-q)
     # Cel::image is the shared routine's image for (file, cel id), handed on untouched: no fast path of its own (seed C06-i)
     render.image_delegation(ctx, rule='N', only=('asefile::cel::Cel::image',))
     render.opacity_and_mode(ctx)
